@@ -68,7 +68,7 @@ CLAIMED = {
 
 
 CLIENT_NOTE = ("Client level: two kinds of Lean models. (1) Deterministic component models (async_sender, replies, publish_send_op, session flags, request validation, timing expressions, "
-               "packet codecs), each tied to the real code by its own lock-step / differential harness or translator. (2) For C01, C03-C09, C14, C17 a composed observer model of the client "
+               "packet codecs), each tied to the real code by its own lock-step / differential harness or translator. (2) For C01, C03-C09, C13, C14, C17 a composed observer model of the client "
                "above the stream (labelled transition systems Model/Trace.lean, TraceIn.lean, TraceContent.lean; DESIGN.md S.8) whose every accepted event list satisfies the end-to-end statement "
                "(theorems in the Props file, section ComposedModel); it over-approximates the client, says nothing about time, liveness or Asio posting order, and is tied to the real mqtt_client "
                "by trace inclusion on the transcripts the H-client scenario generator produces (observed, not proved). The property's Python monitor runs on the same transcripts and is the violation search. ")
@@ -100,7 +100,7 @@ CLAIMED.update({
                      "PINGREQ cadence and read time-outs of the real client are checked by the C12 monitor under virtual time; the timed read of the real read_op (abandon exactly at the limit, never earlier, never with keep-alive 0) by the C12 stream monitor on H-stream.",
                 note=COMMON_NOTE + CLIENT_NOTE + "read_op's parallel_group of read and timer is exercised, not modelled.", technique="translator + Lean 4 arithmetic theorems; virtual-time monitors on the real client and the real autoconnect_stream", design="§5 C12", engine="h_client,h_stream"),
     "C13": dict(text="Proof: flag machine (session_present / subscriptions_present, on_connack, update_session_state, SUBACK success) - for every history the number of session_expired reports equals the specification "
-                     "(one per lost session with a successful subscription since the last report; idempotent per connection). Tied by abstract replay: the model's report count on the inputs read off each real-client transcript equals the reports actually delivered.",
+                     "(one per lost session with a successful subscription since the last report; idempotent per connection). Tied by abstract replay: the model's report count on the inputs read off each real-client transcript equals the reports actually delivered. End to end (composed_expired_reports_bounded): in every event list the composed inbound model accepts, the application is handed at most as many session_expired reports as are due; every H-client transcript is replayed through the model.",
                 note=COMMON_NOTE + CLIENT_NOTE, technique="Lean 4 induction over histories of the flag machine + abstract-replay correspondence on real-client transcripts", design="§5 C13", engine="h_client"),
     "C14": dict(text="Proof: verdict model (admit each code, require exactly one admissible code per topic) - success iff count matches and all codes admissible, and then the codes are the acknowledgement's, in order; SUBACK/UNSUBACK routed by (code, id) as in C01. "
                      "Tied by running arbitrary code lists through the real client (H-client) against the model, and by the replies lock-step. End to end (composed_subscribe_success_truthful, composed_good_ack_codes): a success rests on the written request and, afterwards, the well-formed SUBACK/UNSUBACK for its identifier whose codes are exactly the handler's, one admissible code per topic. Composed model (DESIGN.md S.8): the end-to-end statement is ALSO a Lean theorem about every event list accepted by a labelled transition system of the client above the stream (Model/Trace.lean / TraceIn.lean / TraceContent.lean); the real client is tied to it by trace inclusion: every H-client transcript is replayed through the compiled model on every run (lib/trace_check.py), a refusal is a broken correspondence.",
